@@ -113,11 +113,12 @@ def hash_contraction(inputs, output, size_dict, optimize, **kwargs):
     """Compute a hash key for the specified contraction."""
     optimize = hash_prepare_optimize(optimize)
     kwargs = frozenset(kwargs.items())
-    return (
-        hash((inputs, output, tuple(size_dict.items()), optimize, kwargs)),
-        # add this as a basic way to decrease collisions
-        len(inputs),
-    )
+    key = (inputs, output, tuple(size_dict.items()), optimize, kwargs)
+    # check hashability here, but key on the description itself rather than on
+    # its hash: different contractions can share a hash, for example
+    # hash((-1, -2)) == hash((-2, -1))
+    hash(key)
+    return key
 
 
 def normalize_input(
